@@ -7,7 +7,7 @@
    NOT proved: the deadline clause end-to-end through the loop model (that the timer created by
    queue_send_new fires at its deadline is the loop model's iteration rule); checked on every run. *)
 From PS Require Import Lib.Base Generated.Consts Model.SdTypes Model.Config Model.Session Model.StackTypes Model.Stack
-  Proofs.QueueProofs.
+  Model.StackIO Proofs.QueueProofs Proofs.WorldInv.
 
 Theorem C15_conservation : forall ops s d, QInv s ->
   sent_for d (snd (q_run s ops)) ++ pending_for (fst (q_run s ops)) d = pending_for s d ++ queued_for d ops.
@@ -39,7 +39,17 @@ Theorem C15_timeout_sends_collected : forall c w co,
       (set_collectors (aset N.eqb c (mkColl (co_dest co) (co_data co) true) (collectors w)) w).
 Proof. exact collector_timeout_spec. Qed.
 
+(* on the full stack model, under every schedule: an open collector always owns its pending, uncancelled timeout handle,
+   so every collected batch is transmitted (collector_timeout) and no other component can cancel it *)
+Theorem C15_open_collector_owns_its_timeout : forall w, G w -> forall c, open_coll w c = true ->
+  In (c, HCollector c) (tided w) /\ memN c (cancelled w) = false.
+Proof. intros w Hg c H. exact (g_coll _ _ Hg c H). Qed.
+Theorem C15_in_every_reachable_state : forall s sc, d_scenario s = Some sc -> G (fst (run_scenario sc)).
+Proof. exact G_reachable. Qed.
+
 Print Assumptions C15_conservation.
+Print Assumptions C15_open_collector_owns_its_timeout.
+Print Assumptions C15_in_every_reachable_state.
 Print Assumptions C15_exactly_once_in_order.
 Print Assumptions C15_no_mixing.
 Print Assumptions C15_zero_timeout_immediate.
